@@ -248,7 +248,8 @@ impl<T: Transport + 'static> SyncEngine<T> {
         };
 
         // Handle checksum database
-        let checksum_db = if self.checksum && self.checksum_db {
+        // (not in dry-run: opening creates the database file in the destination)
+        let checksum_db = if self.checksum && self.checksum_db && !self.dry_run {
             // Open checksum database
             match checksumdb::ChecksumDatabase::open(destination) {
                 Ok(db) => {
@@ -462,7 +463,8 @@ impl<T: Transport + 'static> SyncEngine<T> {
             max_size: self.max_size,
         };
 
-        let resume_state = if self.resume {
+        // (not in dry-run: loading deletes corrupt or incompatible state files)
+        let resume_state = if self.resume && !self.dry_run {
             match ResumeState::load(destination)? {
                 Some(state) => {
                     if state.is_compatible_with(&current_flags) {
